@@ -163,6 +163,8 @@ impl Check {
     }
 
     pub fn violate(&self, v: Violation) {
+        // the verdict of this check is known from now on: later explorations run under tight caps
+        crate::engine::VIOLATION_SEEN.store(true, Ordering::Relaxed);
         if self.flooded(&v.signature) {
             return;
         }
